@@ -209,6 +209,30 @@ def o_discard(src, elem, rep, objs, kw):
     return None
 
 
+@C.oracle('union_selfref')
+def o_union_selfref(src, const_src, data):
+    """Union(parsefrom = an expression over the union's own members): the members are in scope when it is evaluated"""
+    def run(x):
+        st = io.BytesIO(data)
+        try:
+            v = C.get(x).parse_stream(st)
+            return ('ok', {k: v[k] for k in v if not str(k).startswith('_')}, st.tell())
+        except core.ConstructError as e:
+            return ('err', type(e).__name__)
+        except Exception as e:
+            return ('foreign', type(e).__name__)
+    a, b = run(src), run(const_src)
+    return None if a == b else 'parsefrom as an expression over the members gives %r, the constant it evaluates to gives %r' % (a, b)
+
+
+UNION_SELFREF = [
+    ('Union(this.sel - 96, "sel"/Byte, "short"/Bytes(2), "long"/Bytes(4))', 'Union(1, "sel"/Byte, "short"/Bytes(2), "long"/Bytes(4))', b'ab\x07\x08\x09'),
+    ('Union(this.sel - 95, "sel"/Byte, "short"/Bytes(2), "long"/Bytes(4))', 'Union(2, "sel"/Byte, "short"/Bytes(2), "long"/Bytes(4))', b'ab\x07\x08\x09'),
+    ('Union(lambda ctx: "short" if ctx.sel == 97 else "long", "sel"/Byte, "short"/Bytes(2), "long"/Bytes(4))', 'Union("short", "sel"/Byte, "short"/Bytes(2), "long"/Bytes(4))', b'ab\x07\x08\x09'),
+    ('Struct("k"/Byte, "u"/Union(this.n, "n"/Byte, "a"/Int16ub, "b"/Int32ub), "t"/Byte)', 'Struct("k"/Byte, "u"/Union(1, "n"/Byte, "a"/Int16ub, "b"/Int32ub), "t"/Byte)', b'\x09\x01\x02\x03\x04\x05'),
+    ('Struct("k"/Byte, "u"/Union(this._.k, "n"/Byte, "a"/Int16ub, "b"/Int32ub), "t"/Byte)', 'Struct("k"/Byte, "u"/Union(2, "n"/Byte, "a"/Int16ub, "b"/Int32ub), "t"/Byte)', b'\x02\x01\x02\x03\x04\x05'),
+]
+
 DISCARD = [
     ('Bytes(this._index + 1)', [b'a', b'bb', b'ccc']),
     ('Struct("i"/Index, "b"/Bytes(this.i))', [dict(b=b''), dict(b=b'x'), dict(b=b'yz')]),
@@ -280,6 +304,10 @@ def run(tier, seed):
             cases.append(dict(src=src, op='parse', data=C.get(src).build(obj, **kw), kw=kw))
         except Exception:
             pass
+    for src, csrc, data in UNION_SELFREF:
+        acc.check('union_selfref', src, const_src=csrc, data=data)
+        if 'lambda' not in src:
+            cases.append(dict(src=src, op='parse', data=data))
     for elem, objs in DISCARD:
         for rep in ('Array', 'GreedyRange', 'RepeatUntil'):
             acc.check('discard', '%s over %s' % (rep, elem), elem=elem, rep=rep, objs=objs, kw={})
